@@ -5,7 +5,7 @@ J=${1:-4}; G=${2:-*}
 cd /verif
 ls -d refactors/$G/ | xargs -n1 basename > /tmp/rmatrix_ids.txt
 one() {
-  s=$1; slot=$2; d=/verif/refactors/$s
+  local s=$1 slot=$2; local d=/verif/refactors/$s
   export VERIF_SCRATCH_TARGET=/verif/build/target_rmatrix_$slot
   export VERIF_EVIDENCE_DIR=/tmp/rmatrix_evid_$slot; mkdir -p $VERIF_EVIDENCE_DIR
   if ! /verif/tools/facts_for_patch.sh $d/patch.diff /verif/build/frm_$s.json; then echo "$s: PATCH-DOES-NOT-APPLY-OR-BUILD"; return; fi
